@@ -271,7 +271,42 @@ P_REVERT = FnSpec(FILE, 'revert', I_P_RV,
         ('''bug!(
                 "A checkpoint's index should always be less than or equal to the length of a perspective's command history!"
             );''', 'return Err(StorageError::Bug);', 1, 'R15'),
-        ('self.current_updates.is_empty()', 'self.current_updates.len() == 0', 1, 'Vec::is_empty -> len()==0'),
+        ('self.current_updates.is_empty()', 'self.current_updates.len() == 0', None, 'Vec::is_empty -> len()==0 (where present)'),
+        # optional: the "drain the pending writes and drop their overlay entries" idiom, modelled exactly
+        ('''for (name, keys, _) in self.current_updates.drain(..) {
+                if let Some(kv) = self.facts.map.get_mut(&name) {
+                    kv.remove(&keys);
+                }
+            }''', '''let drained = take_updates(&mut self.current_updates);
+            for di in 0..drained.len()
+                invariant
+                    self.commands@ == old(self).commands@, self.current_updates@.len() == 0, self.facts.prior == old(self).facts.prior,
+                    // exactly what this loop does: every (name, key) of a drained write has lost its overlay entry, nothing else changed
+                    forall|n: Name, k: Keys| #[trigger] self.facts.at(n, k) ==
+                        (if exists|j: int| 0 <= j < di && (#[trigger] drained@[j]).0 == n && drained@[j].1 == k { None::<Option<Bytes>> } else { old(self).facts.at(n, k) }),
+            {
+                let (name, keys, _) = drained[di];
+                let ghost fb = self.facts;
+                if let Some(kv) = self.facts.map.get_mut(&name) {
+                    kv.remove(&keys);
+                }
+                proof {
+                    assert forall|n: Name, k: Keys| #[trigger] self.facts.at(n, k) == (if n == name && k == keys { None::<Option<Bytes>> } else { fb.at(n, k) }) by {}
+                    assert(drained@[di as int].0 == name && drained@[di as int].1 == keys);
+                    assert forall|n: Name, k: Keys| #[trigger] self.facts.at(n, k) ==
+                        (if exists|j: int| 0 <= j < di + 1 && (#[trigger] drained@[j]).0 == n && drained@[j].1 == k { None::<Option<Bytes>> } else { old(self).facts.at(n, k) }) by {
+                        assert(fb.at(n, k) == (if exists|j: int| 0 <= j < di && (#[trigger] drained@[j]).0 == n && drained@[j].1 == k { None::<Option<Bytes>> } else { old(self).facts.at(n, k) }));
+                        if n == name && k == keys {
+                            assert(0 <= di < di + 1 && drained@[di as int].0 == n && drained@[di as int].1 == k);
+                        } else {
+                            if exists|j: int| 0 <= j < di + 1 && (#[trigger] drained@[j]).0 == n && drained@[j].1 == k {
+                                let j = choose|j: int| 0 <= j < di + 1 && (#[trigger] drained@[j]).0 == n && drained@[j].1 == k;
+                                assert(j < di);
+                            }
+                        }
+                    }
+                }
+            }''', None, 'R29 (optional): `for .. in v.drain(..) { remove overlay entry }` -> index loop over the taken vector with its exact invariant'),
         ('for data in &self.commands {', '''for i in 0..self.commands.len()
             invariant
                 self.commands@ == old(self).commands@.subrange(0, checkpoint.index as int),
@@ -286,7 +321,7 @@ P_REVERT = FnSpec(FILE, 'revert', I_P_RV,
             }''', 1, 'R14'),
     ],
     inserts=[
-        ('after', 'if checkpoint.index == self.commands.len() && self.current_updates.len() == 0 {', '''proof {
+        ('after?', 'if checkpoint.index == self.commands.len() && self.current_updates.len() == 0 {', '''proof {
                 assert(self.commands@.subrange(0, checkpoint.index as int) =~= self.commands@);
                 assert(self.current_updates@ =~= Seq::<Update>::empty());
             }'''),
